@@ -11,6 +11,14 @@ P = {
     note='numpy bool arrays, fresh copy per call; min_n_cycles in 0..len+1 plus two non-integers',
     technique='explicit-state enumeration of the binary prefix tree on the real function vs reference model',
     ref='DESIGN.md section 4 C08'),
+ 'C02': dict(
+    text='Every signal in {-1,0,1}^10 (quick) / {-1,0,1}^12 and {-2..2}^8 (thorough) under a 5- or 9-tap band-pass, and every '
+         'word of the waveform alphabet, is run through the real find_extrema for all pad x boundary x first_extrema x '
+         'filter combinations and compared index-for-index with a reference half-wave model; complete enumeration gives '
+         'all tie / plateau / window-edge patterns that sampled signals miss.',
+    note='neurodsp filter_signal trusted; inputs with no crossing in one direction skipped (undefined by the property)',
+    technique='bounded-exhaustive enumeration of input signals on the real code vs reference model',
+    ref='DESIGN.md section 4 C02'),
 }
 PENDING = {}
 props = [json.loads(l) for l in open(os.path.join(V, 'properties.jsonl'))]
